@@ -381,6 +381,11 @@ def run_extension_types(case, part):
         @stix2.v21.CustomExtension(TE, [("toprank", P.IntegerProperty())])
         class TExt(object):
             extension_type = "toplevel-property-extension"
+        TE2 = "extension-definition--3f7f0c5f-5d54-4292-94ea-ec1e1952c0b4"
+
+        @stix2.v21.CustomExtension(TE2, [("toprank2", P.IntegerProperty())])
+        class TExt2(object):
+            extension_type = "toplevel-property-extension"
         TS = "2016-05-12T08:17:27.000Z"
         bases = {
             "unregistered-type": {"type": "x-unknown", "spec_version": "2.1", "id": "x-unknown--3f7f0c5f-5d54-4292-94ea-ec1e1952be10", "created": TS, "modified": TS},
@@ -421,6 +426,26 @@ def run_extension_types(case, part):
                         if outs[0] != outs[1]:
                             part.violation("C17/validation-depends-on-extension-key-order", "the same content is validated differently depending on the order of the keys of 'extensions'",
                                            dict(case, ext_key=kname, value=vl, toprank=tl), "same verdict", outs)
+                if kname == "registered-toplevel-extension" and vl == "toplevel-property-extension" and b["type"] != "x-unknown":
+                    # TWO registered top-level extensions on one object (both key orders, good and junk values): whatever happens, afterwards each extension still
+                    # contributes exactly its own properties (the tables live in the registry)
+                    tl = {"extension_type": "toplevel-property-extension"}
+                    for tl_label, tv in [("valid", 3)] + list(JUNK):
+                        for order in ((TE, TE2), (TE2, TE)):
+                            j = dict(copy.deepcopy(b), extensions={e: dict(tl) for e in order}, toprank=copy.deepcopy(tv), toprank2=4)
+                            for allow in (False, True):
+                                c = dict(case, ext_key="two-registered-toplevel-extensions", value=tl_label, allow_custom=allow)
+                                for ename, fn in entries(j, "2.1", allow, b["type"] == "file"):
+                                    call(part, ename, fn, c, "two-registered-toplevel-extensions")
+                        probe = dict(copy.deepcopy(b), extensions={TE: dict(tl)}, toprank=1, toprank2=4)
+                        part.evaluations += 1
+                        try:
+                            stix2.parse(probe, allow_custom=False)
+                            part.violation("C17/failure-left-something-behind/extension-contributes-another-extensions-property", "after objects with two registered top-level extensions were handled, one of them alone admits the other's property",
+                                           dict(case, ext_key="two-registered-toplevel-extensions", value=tl_label), "refused (toprank2 belongs to the other extension)", "accepted")
+                            break
+                        except (stix2.exceptions.STIXError, ValueError, TypeError):
+                            part.outcome("two-extensions:tables-intact")
                 for extra in ({}, {"toprank": 1}, {"zzz": {"a": 1}}):
                     j = dict(copy.deepcopy(b), extensions={k: body}, **extra)
                     for allow in (False, True):
